@@ -3,7 +3,7 @@
 From Coq Require Import Ascii String ZArith List Bool.
 Import ListNotations.
 From Coq Require Import PrimFloat.
-Require Import PyBase Solver SolverF FText FTextFacts FWrapFacts FSem FSemFacts FParse FParseFacts FBenignFacts FSolve FSolveFacts FSolveSim FSolveRun FSolveEdge FEvalEdge FPassFacts FSolveAll FSolveAllG FPassSolve FortranF FortranExamples.
+Require Import PyBase Solver SolverF FText FTextFacts FWrapFacts FWrap FWrapGreedyFacts FSem FSemFacts FParse FParseFacts FBenignFacts FSolve FSolveFacts FSolveSim FSolveRun FSolveEdge FEvalEdge FPassFacts FSolveAll FSolveAllG FPassSolve FortranF FortranExamples.
 Open Scope Z_scope.
 
 (* ================================================================== text of build_fortran_definition *)
@@ -86,6 +86,28 @@ Theorem C07_term_text_reads_back i k :
   match lex (S (length txt)) txt with Some ts => p_primary 1 ts | None => None end = Some (SVar i k, []).
 Proof. exact (term_text_reads_back i k). Qed.
 Print Assumptions C07_term_text_reads_back.
+
+(* textwrap.wrap INSIDE THE MODEL (FWrap.v; K: equation_block / array_def_block = the text of the generated module, per case):
+   when every chunk of the code fits the width, the lines are concatenations of WHOLE chunks and their words, read line after
+   line, are the words of the code in order — no token is split, lost or reordered by the line breaking *)
+Theorem C07_wrap_keeps_whole_words width (text : str) :
+  fits width (chunks_of text) ->
+  exists ls : list (list str), wrap width text = map (@concat ascii) ls /\ words (concat ls) = words (chunks_of text).
+Proof. exact (wrap_whole_words width text). Qed.
+Print Assumptions C07_wrap_keeps_whole_words.
+
+(* ... and the kept finding derived from that model: a chunk longer than the width is cut inside the token `abs`; the code is a
+   statement of the Fortran grammar, the block written for it is not *)
+Theorem C07_wrap_splits_long_word_refuted :
+  let names := [lit "Y"; lit "X"] in
+  let eq := lit "Y[t] = abs(abs(abs(abs(abs(abs(abs(abs(abs(abs(abs(abs(abs(abs(abs(abs(abs(abs(abs(abs(abs(abs(abs(abs(abs(abs(X[t]))))))))))))))))))))))))))" in
+  exists code blk,
+    rewrite names eq = Some code /\ equation_block names 100 eq = Some blk /\
+    (exists t, parse_stmt code = Some (0%nat, t)) /\
+    parse_stmt (stmt_of_block blk) = None /\
+    ~ fits 100 (chunks_of code).
+Proof. exact wrap_splits_long_word. Qed.
+Print Assumptions C07_wrap_splits_long_word_refuted.
 
 (* ================================================================== error codes *)
 Theorem C07_wrapper_codes_are_template_codes :
